@@ -27,7 +27,10 @@ def layoutOfJson (j : Json) : Except String Layout := do
 def transformConstantH : Handler := fun j => do
   let data ← listOf int (← field j "data")
   let l ← layoutOfJson (← field j "layout")
-  return jExc (jOpt (jList jInt)) (transformConstant data l)
+  let ro := match j.getObjVal? "refuse_offset" with
+    | .ok (.bool b) => b
+    | _ => false
+  return jExc (jOpt (jList jInt)) (transformConstantF ro data l)
 
 /-- args: {"a": [int], "cols": n, "rows": n} -/
 def transposeTupleH : Handler := fun j => do
@@ -109,8 +112,31 @@ def chkH : Handler := fun j => do
   let b ← blkOfJson (← field j "blk")
   return Json.bool (chk (← listOf nat (← field j "src")) (← listOf nat (← field j "alloc")) b)
 
+/-- args: {"src": [nat], "alloc": [nat], "blk": B} -> bool: the syntactic clauses hold for the (original) block -/
+def syntacticH : Handler := fun j => do
+  let b ← blkOfJson (← field j "blk")
+  return Json.bool (synB (← listOf nat (← field j "src")) (← listOf nat (← field j "alloc")) b)
+
+mutual
+partial def mitemOfJson (j : Json) : Except String MItem := do
+  match (← arr j).toList with
+  | [.str "op", n] => return .op (← listOf nat n)
+  | [.str "loop", b] => return .loop (← mblkOfJson b)
+  | _ => throw "bad mitem"
+partial def mblkOfJson (j : Json) : Except String MBlk := do
+  let items ← (← arr j).toList.mapM mitemOfJson
+  return items.foldr MBlk.cons MBlk.nil
+end
+
+/-- args: {"fixed": bool, "body": M} -> [[op path, value, cast position]] -/
+def assignCastsH : Handler := fun j => do
+  let b ← mblkOfJson (← field j "body")
+  let r := assignCasts (← bool (← field j "fixed")) b
+  return jList (fun e => Json.arr #[jList jNat e.1, jNat e.2.1, jList jNat e.2.2]) r
+
 def handlers : List (String × Handler) :=
   [("c12.transformConstant", transformConstantH), ("c12.transposeTuple", transposeTupleH),
-   ("c12.memspace", memspaceH), ("c12.realize", realizeH), ("c12.chk", chkH)]
+   ("c12.memspace", memspaceH), ("c12.realize", realizeH), ("c12.chk", chkH), ("c12.syntactic", syntacticH),
+   ("c12.assignCasts", assignCastsH)]
 
 end SnaxVerif.Drv.C12
